@@ -60,7 +60,7 @@ pub fn shapes(seed: u64, n: usize) -> Vec<f64> {
     a
 }
 
-pub fn probs(seed: u64, a_idx: usize, dense: bool) -> Vec<f64> {
+pub fn probs(seed: u64, a_idx: usize, dense: bool, a: f64) -> Vec<f64> {
     let mut rng = rng_for(seed, 1000 + a_idx as u64);
     let mut p = vec![0.0, f64::from_bits(1), f64::MIN_POSITIVE, 1e-300, 1e-200, 1e-100];
     let step = if dense { 1 } else { 4 };
@@ -69,6 +69,12 @@ pub fn probs(seed: u64, a_idx: usize, dense: bool) -> Vec<f64> {
     let grid = if dense { 200 } else { 40 };
     for k in 1..grid { p.push(k as f64 / grid as f64); }
     for _ in 0..grid / 2 { p.push(rng.gen_range(0.0..1.0)); p.push(10f64.powf(rng.gen_range(-16.0..0.0))); }
+    // narrow bands around landmarks of the distribution (quantile = mean, = mode, = 3 mean): shortcuts and
+    // branch switches of quantile algorithms sit there
+    for x0 in [a, (a - 1.0).max(1e-3), 3.0 * a, a * (1.0 + 1e-6), a * (1.0 - 1e-6), 0.5 * a, 2.0 * a] {
+        let pc = reg_lower_gamma(a, x0);
+        for k in [-9.0, -5.0, -2.0, -1.0, -0.3, 0.0, 0.3, 1.0, 2.0, 5.0, 9.0] { p.push(pc + k * 1e-7); }
+    }
     p.retain(|x| (0.0..1.0).contains(x));
     p.sort_by(|a, b| a.partial_cmp(b).unwrap());
     p.dedup();
@@ -82,7 +88,7 @@ pub fn record(seed: u64, nshapes: usize, dense: bool, trace_path: &str) -> Summa
     for (ai, a) in shapes(seed, nshapes).into_iter().enumerate() {
         let p_small = reg_lower_gamma(a, 1e-13);
         let mut prev: Option<(f64, f64)> = None; // (p, P(a, lambda)) of the last Ok value
-        for p in probs(seed, ai, dense) {
+        for p in probs(seed, ai, dense, a) {
             let (cls, lam) = call(a, p);
             sm.evaluations += 1;
             let indomain = p >= p_small * (1.0 + 1e-6) && p > 0.0;
